@@ -41,6 +41,9 @@ inductive Stmt where
   | while_ (c : Node) (body : Block)
   /-- `for name in range(begin, stop, step): body` (the one/two-argument forms have begin = `0` / step = `1` as the emitter supplies them) -/
   | forRange (v : Var) (name : Str) (begin stop step : Node) (body : Block)
+  /-- `break` / `continue` (statement/break.j2, statement/continue.j2) -/
+  | brk
+  | cont
 inductive Block where
   | nil
   | cons (s : Stmt) (rest : Block)
@@ -73,6 +76,8 @@ inductive AStmt where
   | ifs (arms : AArms) (hasElse : Bool) (els : ABlock)
   | while_ (c : Node) (body : ABlock)
   | forRange (v : Var) (name : Str) (begin stop step : Node) (body : ABlock)
+  | brk
+  | cont
 inductive ABlock where
   | nil
   | cons (s : AStmt) (rest : ABlock)
@@ -114,6 +119,12 @@ def annotD (d : List (Scope × Var)) (k : Nat) (s : Scope) : Block → ABlock ×
     let (b, d1, k1) := annotD (d ++ [(s ++ [k], v)]) (k + 1) (s ++ [k]) body
     let (r, d2, k2) := annotD d1 k1 s rest
     (.cons (.forRange v name b0 s0 t0 b) r, d2, k2)
+  | .cons .brk rest =>
+    let (r, d', k') := annotD d k s rest
+    (.cons .brk r, d', k')
+  | .cons .cont rest =>
+    let (r, d', k') := annotD d k s rest
+    (.cons .cont r, d', k')
 def annotDArms (d : List (Scope × Var)) (k : Nat) (s : Scope) : Arms → AArms × List (Scope × Var) × Nat
   | .one c b =>
     let (b', d', k') := annotD d (k + 1) (s ++ [k]) b
@@ -151,6 +162,8 @@ def annotV (vs : VStack) : Block → ABlock
   | .cons (.ifs arms he els) rest => .cons (.ifs (annotVArms vs arms) he (annotV ([] :: vs) els)) (annotV vs rest)
   | .cons (.while_ c body) rest => .cons (.while_ c (annotV ([] :: vs) body)) (annotV vs rest)
   | .cons (.forRange v name b0 s0 t0 body) rest => .cons (.forRange v name b0 s0 t0 (annotV ([] :: [v] :: vs) body)) (annotV vs rest)
+  | .cons .brk rest => .cons .brk (annotV vs rest)
+  | .cons .cont rest => .cons .cont (annotV vs rest)
 def annotVArms (vs : VStack) : Arms → AArms
   | .one c b => .one c (annotV ([] :: vs) b)
   | .more c b rest => .more c (annotV ([] :: vs) b) (annotVArms vs rest)
@@ -194,11 +207,60 @@ def emitLines (typeOf : Node → Str) : ABlock → List Str
   | .cons (.forRange _ name b0 s0 t0 body) rest =>
     line stmtForRangeHead [(sSymbol, word name), (sBegin, emitRaw b0), (sSize, emitRaw s0), (sStep, emitRaw t0)]
       :: (emitLines typeOf body ++ [stmtForRangeTail] ++ emitLines typeOf rest)
+  | .cons .brk rest => line stmtBreak [] :: emitLines typeOf rest
+  | .cons .cont rest => line stmtContinue [] :: emitLines typeOf rest
 def emitArms (typeOf : Node → Str) (first : Bool) : AArms → List Str
   | .one c b => line (if first then stmtIfHead else stmtElifHead) [(sCondition, emitRaw c)] :: emitLines typeOf b
   | .more c b rest =>
     line (if first then stmtIfHead else stmtElifHead) [(sCondition, emitRaw c)] :: (emitLines typeOf b ++ emitArms typeOf false rest)
 end
+
+/-! ## the C++ statement forms of the translated templates
+
+  `cExec` below gives every annotated statement the meaning of ONE C++ statement form (`decl` = a declaration with initialiser,
+  `while_` = a while statement whose body is a compound statement, …). `readForm` is the reader that justifies the choice: it
+  recognises those forms of the C++ grammar (stmt.dcl, stmt.expr, stmt.return, stmt.if, stmt.while, stmt.for, stmt.break,
+  stmt.cont; one layout each — a reader of fewer texts is still a sound reader) in a template line and says which template variable
+  stands in which position. `C01.stmt_forms` evaluates it on every translated statement template. -/
+
+inductive CForm where
+  /-- `T v = e;` -/
+  | declare (ty recv val : Str)
+  /-- `v = e;` -/
+  | assign (recv val : Str)
+  /-- `v op e;` with the compound-assignment operator a template variable -/
+  | compound (recv op val : Str)
+  /-- `return e;` -/
+  | ret (val : Str)
+  /-- `if (c) {` -/
+  | ifHead (cond : Str)
+  /-- `} else if (c) {` : closes the previous branch block, opens the next one -/
+  | elifHead (cond : Str)
+  /-- `} else {` -/
+  | elseHead
+  /-- `while (c) {` -/
+  | whileHead (cond : Str)
+  /-- `for (auto v = b; l < r; w += s) {` -/
+  | forHead (sym begin testL testR incr step : Str)
+  | brk
+  | cont
+deriving DecidableEq
+
+def readForm : List Piece → Option CForm
+  | [.var t, .sp, .var r, .sp, .tok ['='], .sp, .var v, .tok [';']] => some (.declare t r v)
+  | [.var r, .sp, .tok ['='], .sp, .var v, .tok [';']] => some (.assign r v)
+  | [.var r, .sp, .var o, .sp, .var v, .tok [';']] => some (.compound r o v)
+  | [.tok ['r', 'e', 't', 'u', 'r', 'n'], .sp, .var v, .tok [';']] => some (.ret v)
+  | [.tok ['i', 'f'], .sp, .tok ['('], .var c, .tok [')'], .sp, .tok ['{']] => some (.ifHead c)
+  | [.tok ['}'], .sp, .tok ['e', 'l', 's', 'e'], .sp, .tok ['i', 'f'], .sp, .tok ['('], .var c, .tok [')'], .sp, .tok ['{']] => some (.elifHead c)
+  | [.tok ['}'], .sp, .tok ['e', 'l', 's', 'e'], .sp, .tok ['{']] => some .elseHead
+  | [.tok ['w', 'h', 'i', 'l', 'e'], .sp, .tok ['('], .var c, .tok [')'], .sp, .tok ['{']] => some (.whileHead c)
+  | [.tok ['f', 'o', 'r'], .sp, .tok ['('], .tok ['a', 'u', 't', 'o'], .sp, .var v, .sp, .tok ['='], .sp, .var b, .tok [';'], .sp,
+      .var l, .sp, .tok ['<'], .sp, .var r, .tok [';'], .sp, .var w, .sp, .tok ['+', '='], .sp, .var st, .tok [')'], .sp, .tok ['{']] =>
+    some (.forHead v b l r w st)
+  | [.tok ['b', 'r', 'e', 'a', 'k'], .tok [';']] => some .brk
+  | [.tok ['c', 'o', 'n', 't', 'i', 'n', 'u', 'e'], .tok [';']] => some .cont
+  | _ => none
 
 /-! ## the loop test of `for (…; v < stop; …)` -/
 
@@ -238,6 +300,9 @@ def Store.put (σ : Store) (v : Var) (i : Int) : Store := (v, i) :: σ.filter fu
 inductive Outcome (S : Type) where
   | normal (s : S)
   | returned (v : Int)
+  /-- a `break` / `continue` on its way to the innermost enclosing loop -/
+  | broke (s : S)
+  | continued (s : S)
 deriving DecidableEq
 
 mutual
@@ -273,6 +338,8 @@ def pyExec (lits : Lits) : Nat → Store → Block → Except Err (Outcome Store
     match pyStmt lits fuel σ s with
     | .ok (.normal σ') => pyExec lits fuel σ' rest
     | .ok (.returned v) => .ok (.returned v)
+    | .ok (.broke σ') => .ok (.broke σ')           -- the rest of the block is skipped
+    | .ok (.continued σ') => .ok (.continued σ')
     | .error er => .error er
 def pyStmt (lits : Lits) : Nat → Store → Stmt → Except Err (Outcome Store)
   | 0, _, _ => .error .outOfSubset
@@ -298,6 +365,8 @@ def pyStmt (lits : Lits) : Nat → Store → Stmt → Except Err (Outcome Store)
     | .ok (.bool true) =>
       match pyExec lits fuel σ body with
       | .ok (.normal σ') => pyStmt lits fuel σ' (.while_ c body)
+      | .ok (.continued σ') => pyStmt lits fuel σ' (.while_ c body)   -- `continue`: back to the test
+      | .ok (.broke σ') => .ok (.normal σ')                           -- `break`: the loop is left (no `else` clause in the core)
       | .ok (.returned v) => .ok (.returned v)
       | .error er => .error er
     | .ok (.bool false) => .ok (.normal σ)
@@ -308,6 +377,8 @@ def pyStmt (lits : Lits) : Nat → Store → Stmt → Except Err (Outcome Store)
     match pyExpr' lits σ b0, pyExpr' lits σ s0, pyExpr' lits σ t0 with
     | .ok (.int b), .ok (.int s), .ok (.int t) => if 1 ≤ t ∧ inI32 b = true then pyFor lits fuel σ v b s t body else .error .outOfSubset
     | _, _, _ => .error .outOfSubset
+  | _ + 1, σ, .brk => .ok (.broke σ)
+  | _ + 1, σ, .cont => .ok (.continued σ)
 /-- the iterations of `for v in range(cur, stop, step)`: `v` is (re)bound to the next value of the range whatever the body did to it -/
 def pyFor (lits : Lits) : Nat → Store → Var → Int → Int → Int → Block → Except Err (Outcome Store)
   | 0, _, _, _, _, _, _ => .error .outOfSubset
@@ -316,6 +387,8 @@ def pyFor (lits : Lits) : Nat → Store → Var → Int → Int → Int → Bloc
       if inI32 (cur + step) then
         match pyExec lits fuel (σ.put v cur) body with
         | .ok (.normal σ') => pyFor lits fuel σ' v (cur + step) stop step body
+        | .ok (.continued σ') => pyFor lits fuel σ' v (cur + step) stop step body   -- `continue`: the next value of the range
+        | .ok (.broke σ') => .ok (.normal σ')
         | .ok (.returned r) => .ok (.returned r)
         | .error er => .error er
       else .error .outOfSubset     -- the C++ increment after this iteration would overflow
@@ -374,6 +447,8 @@ def cExpr (lits : Lits) (fs : Frames) (e : Node) : Except Err Int :=
 /-- the closing brace of a block: drop the innermost frame -/
 def popOut : Except Err (Outcome Frames) → Except Err (Outcome Frames)
   | .ok (.normal fs) => .ok (.normal fs.tail)
+  | .ok (.broke fs) => .ok (.broke fs.tail)           -- leaving a block through `break` / `continue` ends the lifetime of its names too
+  | .ok (.continued fs) => .ok (.continued fs.tail)
   | r => r
 
 /-- C++ value of the pasted loop test: the tokens the template produced, lexed and parsed by the C++ grammar as they stand -/
@@ -384,6 +459,17 @@ def cCond (lits : Lits) (fs : Frames) (v : Var) (name : Str) (s0 : Node) : Excep
     | none => .error .ub
   else .error .ub
 
+/-- the increment `v += step` of the emitted for statement: `step` is evaluated again, `v` is whatever the body left in it -/
+def cForNext (lits : Lits) (fs' : Frames) (v : Var) (t0 : Node) : Except Err Frames :=
+  match fs'.get v, cExpr lits fs' t0 with
+  | some cur', .ok t =>
+    if inI32 (cur' + t) then
+      match fs'.set v (cur' + t) with
+      | some fs'' => .ok fs''
+      | none => .error .ub
+    else .error .ub
+  | _, _ => .error .ub
+
 mutual
 def cExec (lits : Lits) : Nat → Frames → ABlock → Except Err (Outcome Frames)
   | 0, _, _ => .error .ub
@@ -392,6 +478,8 @@ def cExec (lits : Lits) : Nat → Frames → ABlock → Except Err (Outcome Fram
     match cStmt lits fuel fs s with
     | .ok (.normal fs') => cExec lits fuel fs' rest
     | .ok (.returned v) => .ok (.returned v)
+    | .ok (.broke fs') => .ok (.broke fs')
+    | .ok (.continued fs') => .ok (.continued fs')
     | .error er => .error er
 def cStmt (lits : Lits) : Nat → Frames → AStmt → Except Err (Outcome Frames)
   | 0, _, _ => .error .ub
@@ -426,6 +514,8 @@ def cStmt (lits : Lits) : Nat → Frames → AStmt → Except Err (Outcome Frame
         -- `{ … }`: a fresh innermost frame, dropped at the closing brace
         match popOut (cExec lits fuel ([] :: fs) body) with
         | .ok (.normal fs') => cStmt lits fuel fs' (.while_ c body)
+        | .ok (.continued fs') => cStmt lits fuel fs' (.while_ c body)
+        | .ok (.broke fs') => .ok (.normal fs')
         | .ok (.returned v) => .ok (.returned v)
         | .error er => .error er
       else .ok (.normal fs)
@@ -435,6 +525,8 @@ def cStmt (lits : Lits) : Nat → Frames → AStmt → Except Err (Outcome Frame
     match cExpr lits fs b0 with
     | .ok b => popOut (cFor lits fuel ([(v, b)] :: fs) v name s0 t0 body)
     | .error er => .error er
+  | _ + 1, fs, .brk => .ok (.broke fs)
+  | _ + 1, fs, .cont => .ok (.continued fs)
 /-- `for (…; v < stop; v += step) { body }` from the loop test on: the pasted test `v < stop` (as C++ parses that text) and `step`
     are evaluated on EVERY iteration, `v` is whatever the body left in it -/
 def cFor (lits : Lits) : Nat → Frames → Var → Str → Node → Node → ABlock → Except Err (Outcome Frames)
@@ -445,14 +537,14 @@ def cFor (lits : Lits) : Nat → Frames → Var → Str → Node → Node → AB
       if c ≠ 0 then
         match popOut (cExec lits fuel ([] :: fs) body) with
         | .ok (.normal fs') =>
-          match fs'.get v, cExpr lits fs' t0 with
-          | some cur', .ok t =>
-            if inI32 (cur' + t) then
-              match fs'.set v (cur' + t) with
-              | some fs'' => cFor lits fuel fs'' v name s0 t0 body
-              | none => .error .ub
-            else .error .ub
-          | _, _ => .error .ub
+          match cForNext lits fs' v t0 with
+          | .ok fs'' => cFor lits fuel fs'' v name s0 t0 body
+          | .error er => .error er
+        | .ok (.continued fs') =>        -- `continue` jumps to the increment `v += step`
+          match cForNext lits fs' v t0 with
+          | .ok fs'' => cFor lits fuel fs'' v name s0 t0 body
+          | .error er => .error er
+        | .ok (.broke fs') => .ok (.normal fs')
         | .ok (.returned r) => .ok (.returned r)
         | .error er => .error er
       else .ok (.normal fs)
@@ -484,6 +576,8 @@ def writes : Block → List Var
   | .cons (.ifs arms _ els) rest => writesArms arms ++ writes els ++ writes rest
   | .cons (.while_ _ body) rest => writes body ++ writes rest
   | .cons (.forRange v _ _ _ _ body) rest => v :: writes body ++ writes rest
+  | .cons .brk rest => writes rest
+  | .cons .cont rest => writes rest
 def writesArms : Arms → List Var
   | .one _ b => writes b
   | .more _ b rest => writes b ++ writesArms rest
@@ -513,6 +607,8 @@ def scopeOK (lits : Lits) : VStack → Block → Bool
       && ((lits v).isNone && !isRegrouped s0 BOp.lt.tok && exprOK lits ([v] :: vs) (condNode v name s0))
       && (loopFixed lits v s0 t0).all (fun x => !(writes body).contains x)
       && scopeOK lits ([] :: [v] :: vs) body && scopeOK lits vs rest
+  | vs, .cons .brk rest => scopeOK lits vs rest
+  | vs, .cons .cont rest => scopeOK lits vs rest
 def armsOK (lits : Lits) : VStack → Arms → Bool
   | vs, .one c b => exprOK lits vs c && scopeOK lits ([] :: vs) b
   | vs, .more c b rest => exprOK lits vs c && scopeOK lits ([] :: vs) b && armsOK lits vs rest
